@@ -72,6 +72,7 @@ def check_C16(report, tier, seed):
     walks = E.run_walks(seed, tier, "engine-c16", 160, 4000, profile=lambda i: "mpstight" if i % 2 == 0 else ("connects" if i % 4 == 1 else "default"))
     corr_ok = E.correspondence(report, walks, "C16")
     mon_ok = E.monitor(report, walks, "C16")
+    E.announced_availability_family(report, "C16")
     if not corr_ok and mon_ok:
         more = E.run_walks(seed + 1, tier, "engine-c16-search", 1200, 4000, replay_model=False, profile=lambda i: "mpstight")
         E.monitor(report, more, "C16", label="search")
@@ -152,6 +153,9 @@ def check_C11(report, tier, seed):
     # no configuration value the builders accept can make the client panic: the websocket upgrade request for any endpoint string
     import suites_drivers
     suites_drivers.suite_ws_request(report, "C11")
+    # the client (engine + event dispatch) against a CONNACK that breaks the protocol or refuses the connection
+    import suites_client
+    suites_client.suite_hostile_connack(report, tier, seed, "C11")
 def check_C14(report, tier, seed):
     import suites_engine as S
     engine_check("C14", report, tier, seed, snap_after_svc=True)
@@ -180,6 +184,7 @@ def check_C17(report, tier, seed):
     walks = E.run_walks(seed, tier, "engine", 240, 6000, profile=lambda i: "mpstight" if i % 2 == 0 else ("inalias" if i % 4 == 1 else "default"))
     corr_ok = E.correspondence(report, walks, "C17")
     mon_ok = E.monitor(report, walks, "C17")
+    E.alias_with_connack_family(report, "C17")
     if not corr_ok and mon_ok:
         more = E.run_walks(seed + 1, tier, "engine-c17-search", 1200, 4000, replay_model=False, profile=lambda i: "mpstight")
         E.monitor(report, more, "C17", label="search")
